@@ -866,6 +866,38 @@ class T:
         self.f, self.dtype, self.nan = r.f, r.dtype, r.nan
         return self
 
+    def _inplace_full(self, r):
+        """torch in-place arithmetic (x *= y, x.mul_(y), ...): the OBJECT is mutated, every alias sees the new value;
+        the dtype of the target is kept"""
+        if not isinstance(r, T):
+            raise Unsupported("in-place result is not a tensor")
+        if r.dtype != self.dtype:
+            r = r.to(CANON[self.dtype]) if self.dtype in CANON else r
+        if self.tlen is None and r.tlen is not None:
+            raise Unsupported("in-place op would add a time axis")
+        self.f, self.nan = r.f, r.nan
+        if r.tlen is not None:
+            self.tlen, self.taxis = r.tlen, r.taxis
+        return self
+
+    def mul_(self, o):
+        return self._inplace_full(self * o)
+
+    def add_(self, o, alpha=1):
+        return self._inplace_full(self + (o * alpha if alpha != 1 else o))
+
+    def sub_(self, o, alpha=1):
+        return self._inplace_full(self - (o * alpha if alpha != 1 else o))
+
+    def div_(self, o):
+        return self._inplace_full(self / o)
+
+    def copy_(self, o):
+        return self._inplace_full(o if isinstance(o, T) else self * 0 + o)
+
+    def zero_(self):
+        return self._inplace_full(self * 0)
+
     def clamp_max_(self, m):
         return self._inplace(self.clamp_max(m))
 
@@ -1154,14 +1186,34 @@ class T:
             return T(v, self.dtype, None, None, self.eshape)
         raise Unsupported("reduction nansum")
 
+    def _layout_free(self, what):
+        """LAYOUT-FREE mode (connection contracts): a tensor without time axis is its value at ONE arbitrary index
+        tuple; pure re-layouts (view / reshape / expand / flatten / permutations) keep that value, the element shape
+        is forgotten.  What is lost: a wrong permutation of axes is not detected here (bounded stand-in)."""
+        if not LAYOUT_FREE[0] or self.tlen is not None:
+            raise Unsupported(what)
+        return T(self.f, self.dtype, None, None, None, self.nan)
+
     def view(self, *a):
-        raise Unsupported("view")
+        return self._layout_free("view")
 
     def reshape(self, *a):
-        raise Unsupported("reshape")
+        return self._layout_free("reshape")
+
+    def expand(self, *a):
+        return self._layout_free("expand")
+
+    def flatten(self, *a):
+        return self._layout_free("flatten")
+
+    def contiguous(self):
+        return self
 
     def t(self):
         raise Unsupported("transpose")
+
+
+LAYOUT_FREE = [False]
 
 
 # ----------------------------------------------------------------------- helpers
